@@ -15,6 +15,7 @@ def run(ctx):
     dmon = lambda tr, sc: SC.mon_drained(tr)
     v, stats, hist, samples, nd = SC.run_property(ctx, MODULE, PROFILE, 250, 4000, [mon], keep, length=(10, 36),
                                                   drain=True, drain_monitors=[dmon])
+    SC.volatile_stage(ctx, MODULE, PROFILE, v, stats)
     return SC.finish(ctx, v, stats, hist, samples, nd,
                      "random histories of persisted publishes (both levels), acknowledgements (legal and illegal), connection breaks, "
                      "short writes, failed/refused connects, Persistence faults; every script ends with a drain epilogue (fault-free "
